@@ -186,9 +186,14 @@ fn record(a: &Args) {
                 continue;
             }
         };
+        // a second sampler with another rate is used before every observed call: samplers are independent values
+        let decoy = make(if li % 2 == 0 { lam * 1.75 + 0.5 } else { lam * 0.4 }).ok();
         let emit = |u: i64, x: i64, y: i64, cut: bool, out: &mut Out| -> usize {
             let seq = out.lines; // header is line 0: events are numbered 1, 2, ... without gaps
             let t = grid_tape(n, nu, u, x, y);
+            if let Some(d) = decoy.as_ref() {
+                let _ = run(d, &[t[2], t[0], t[1]]);
+            }
             let o = run(&e, &t);
             let v = obs_json(&o, n);
             let nd = v["nd"].as_u64().unwrap() as usize;
